@@ -15,6 +15,7 @@ CONSTANTS
   VarTypes <- VarTypesStd
   VarVals <- VarValsSmall
   MaxOverlay = 0
+  TRSets <- NoTR
   MaxFaults = 1
   SeqFields = {}
   LConc = TRUE
